@@ -6,6 +6,7 @@ import (
 	"net"
 	"runtime"
 	"sort"
+	"strings"
 	"sync"
 	"sync/atomic"
 	"time"
@@ -84,6 +85,8 @@ type scriptReq struct {
 	Actions   []scriptAction `json:"actions"`
 	QuiesceMs int            `json:"quiesceMs"` // how long to wait for started queries to return
 	SettleMs  int            `json:"settleMs"`  // how long to wait for tables/goroutines to drain afterwards
+	// QuiesceMaxMs: upper bound of the wait for started queries while there still is progress
+	QuiesceMaxMs int `json:"quiesceMaxMs,omitempty"`
 	// SettleMaxMs: goroutines of finished queries that are still *moving* (running, or their stack
 	// changes between dumps) are waited for up to this long instead of SettleMs (0 = SettleMs)
 	SettleMaxMs int `json:"settleMaxMs,omitempty"`
@@ -127,6 +130,12 @@ type scriptReport struct {
 	BaselineDumpSize      int           `json:"baselineDumpSize"`      // goroutines in the dump taken before the first query
 	DumpsCompared         int           `json:"dumpsCompared"`         // dumps taken after quiescence and compared with the baseline
 	Leaked                []leakedGorou `json:"leaked,omitempty"`      // goroutines of finished queries still present in the last dump
+	// Stuck: queries had not returned after QuiesceMs and then nothing moved for quiesceStuckMs
+	Stuck           bool  `json:"stuck,omitempty"`
+	QuiesceWaitedMs int64 `json:"quiesceWaitedMs"`
+	// LeakedMoving: how many of the goroutines still present in the last dump are running/runnable
+	// or changed their stack during the last leakStableMs
+	LeakedMoving int `json:"leakedMoving,omitempty"`
 	// Lingered: per-query function -> longest time (ms) a goroutine with that function was still
 	// seen after quiescence (goroutines that went away by themselves included)
 	Lingered map[string]int64 `json:"lingered,omitempty"`
@@ -361,13 +370,70 @@ func opScript(req *sut.Req) (interface{}, error) {
 		}
 	}
 
-	// quiescence: every started query must return
+	// quiescence: every started query must return. QuiesceMs is not a verdict by itself (the machine
+	// may be loaded): afterwards the wait goes on for as long as there is progress - a query returns,
+	// or a goroutine of a query (not in the baseline dump, frame in a per-query package) is
+	// running/runnable or has changed its stack. No progress at all for quiesceStuckMs (longer than
+	// any query timeout of the sequence) = stuck; progress until QuiesceMaxMs = out of time budget.
 	done := make(chan struct{})
 	go func() { wg.Wait(); close(done) }()
+	returnedCount := func() int {
+		mu.Lock()
+		defer mu.Unlock()
+		n := 0
+		for _, sq := range rep.Started {
+			if sq.Returned {
+				n++
+			}
+		}
+		return n
+	}
+	snapshot := func() (string, bool) {
+		var sigs []string
+		moving := false
+		for _, g := range allGoroutines() {
+			if baseIDs[g.ID] || g.Query == "" {
+				continue
+			}
+			if !g.Waiting {
+				moving = true
+			}
+			sigs = append(sigs, fmt.Sprintf("%d:%s", g.ID, g.Sig))
+		}
+		sort.Strings(sigs)
+		return strings.Join(sigs, "\n"), moving
+	}
+	quiesceStart := time.Now()
 	select {
 	case <-done:
 	case <-time.After(time.Duration(sr.QuiesceMs) * time.Millisecond):
+		lastProgress := time.Now()
+		lastRet := returnedCount()
+		lastSigs, _ := snapshot()
+	extended:
+		for {
+			select {
+			case <-done:
+				break extended
+			case <-time.After(2 * time.Second):
+			}
+			now := time.Now()
+			ret := returnedCount()
+			sigs, moving := snapshot()
+			if ret != lastRet || sigs != lastSigs || moving {
+				lastProgress = now
+			}
+			lastRet, lastSigs = ret, sigs
+			if now.Sub(lastProgress) > quiesceStuckMs*time.Millisecond {
+				rep.Stuck = true
+				break
+			}
+			if sr.QuiesceMaxMs <= 0 || now.Sub(quiesceStart) > time.Duration(sr.QuiesceMaxMs)*time.Millisecond {
+				break
+			}
+		}
 	}
+	rep.QuiesceWaitedMs = time.Since(quiesceStart).Milliseconds()
 	close(stopSampler)
 	<-samplerDone
 	mu.Lock()
@@ -445,8 +511,11 @@ func opScript(req *sut.Req) (interface{}, error) {
 	rep.SettleWaitedMs = time.Since(t0).Milliseconds()
 	for _, g := range offenders {
 		sg := seen[g.ID]
+		if !g.Waiting || time.Since(sg.sigSince) < leakStableMs*time.Millisecond {
+			rep.LeakedMoving++
+		}
 		if len(rep.Leaked) >= 40 {
-			break
+			continue
 		}
 		stack := g.Text
 		if len(stack) > 3000 {
@@ -468,6 +537,10 @@ const goroutineSlack = 8
 // leakStableMs: a goroutine of a finished query counts as "staying" when it is in a waiting
 // state with an unchanged stack for at least this long at the end of the settle period.
 const leakStableMs = 3000
+
+// quiesceStuckMs: queries that have not returned count as stuck when nothing of any query has
+// moved for this long (more than twice the longest query timeout a sequence uses, 20 s).
+const quiesceStuckMs = 45_000
 
 // runHTTPSearch sends one search request through the handler of POST /api/search.
 func runHTTPSearch(sr *scriptReq, text string) (int, string) {
@@ -535,7 +608,11 @@ func runWS(ln *fasthttputil.InmemoryListener, sr *scriptReq, text string, cancel
 	states := ""
 	sawRunning := false
 	for {
-		_ = conn.SetReadDeadline(time.Now().Add(time.Duration(sr.QuiesceMs) * time.Millisecond))
+		rd := sr.QuiesceMs
+		if sr.QuiesceMaxMs > rd {
+			rd = sr.QuiesceMaxMs // the script decides about stuck queries, not this deadline
+		}
+		_ = conn.SetReadDeadline(time.Now().Add(time.Duration(rd) * time.Millisecond))
 		var m map[string]interface{}
 		if err := conn.ReadJSON(&m); err != nil {
 			if sq.Outcome == "" {
